@@ -108,12 +108,17 @@ Definition read_string : dec bytes :=
   o <- read_bytes ;;
   match o with None => ret [] | Some d => tick (N.of_nat (length d)) ;;; ret d end.
 
-(* Buffer.ReadTime *)
+(* time.Time{} (IsZero) in nanoseconds since 1970 *)
+Definition zero_time_ns : Z := -62135596800000000000.
+
+(* Buffer.ReadTime: int64 ticks of 100 ns since 1601, converted through seconds and nanoseconds (exact: a time.Time holds
+   every int64 tick count); times are modelled as unbounded nanoseconds since 1970, IsZero as None *)
 Definition read_time : dec (option Z) :=
   d <- read_n 8 ;;
   let ts := unle d in
   if ts =? 0 then ret None
-  else ret (Some (to_signed 8 ((((ts - time_offset) mod pow8 8) * 100) mod pow8 8))).
+  else let ns := (to_signed 8 ts - time_offset) * 100 in
+       if ns =? zero_time_ns then ret None else ret (Some ns).
 
 Fixpoint dec_n {A} (d : dec A) (n : nat) : dec (list A) :=
   match n with
@@ -407,7 +412,7 @@ Definition enc_bytestring (b : option bytes) : eres :=
 Definition enc_time (t : option Z) : eres :=
   match t with
   | None => EOk (le 8 0)
-  | Some ns => EOk (le 8 (Z.quot ns 100 + time_offset))
+  | Some ns => EOk (le 8 (ns / 100 + time_offset))     (* Unix()*1e7 + Nanosecond()/100 + offset, wrapping in int64 *)
   end.
 
 Definition enc_guid (v : val) : eres :=
